@@ -1,5 +1,13 @@
 -- Root of the `RdVerif` library: executable models, generated data, proofs, property theorems.
 import RdVerif.Model.Driver
+import RdVerif.Props.C01
+import RdVerif.Props.C02
+import RdVerif.Props.C03
+import RdVerif.Props.C04
+import RdVerif.Props.C05
+import RdVerif.Props.C06
+import RdVerif.Props.C07
 import RdVerif.Props.C09
 import RdVerif.Props.C10
 import RdVerif.Props.C10Entry
+import RdVerif.Props.C14
